@@ -16,7 +16,8 @@ func checkC19(c *Ctx) {
 	c.Decided = "multi-signature signer lists: every production construction of a Multi with more than one element is the Contains-gated append in Combine, or is checked for distinct signers by the verifiers before its size is trusted (C02.4), so size = number of distinct signers wherever a quorum check relies on it; " +
 		"bit field: the element counter is written only by the guarded increment in set (under !isSet) and by the recount in BitfieldFromBytes; the id<->(byte,bit) mapping is a bijection (index and id are mutually inverse, by the Euclidean identity on the extracted expressions); " +
 		"Contains tests the bounds before indexing, Add extends before setting, iteration visits bytes then bits in ascending order."
-	c.NotDec = "the bit operations themselves (mask/shift semantics), and id 0 (index -1), which is outside the configured id range."
+	c.Decided += " Every bit field that is mutated owns its bytes (no Add on a copy of another signature's bit field)."
+	c.NotDec = "the bit operations themselves (mask/shift semantics); Add(0) (id 0 is outside the configured id range; Contains(0) is decided, C19.5)."
 	c.Expect("C19.2", 3)
 	c.Expect("C19.3", 3)
 	c.Expect("C19.6", 2)
